@@ -63,6 +63,18 @@ CHECKS = {
         note="Trusted: numpy dense algebra/partial traces; harness dense operators from BasisSet.op_mat. 2-6 sites, dimension <= 256.",
         technique="property-based testing (Hypothesis) with dense reference oracle + differential (fast vs slow path) + permutation metamorphic relation",
     ),
+    "C08": dict(
+        category="exploration",
+        text="Generated (model, Hermitian Hamiltonian, sector, start state, sweep schedule, 1site/2site, direct/davidson, nroots, "
+             "omega, StackedMpo split) cases; exact diagonalisation of the dense Hamiltonian restricted to the sector is the oracle: "
+             "every reported energy of every sweep and root is an upper bound (Cauchy interlacing), returned states are normalised, "
+             "in the sector with valid labels, their energy is variational and equals Mps.expectation; the omega variant bounds "
+             "min (E-omega)^2; unperturbed untruncated sweeps are monotone; equality with exact diagonalisation is asserted where "
+             "DMRG provably reaches it (two sites, two-site update) and reported as a statistic elsewhere.",
+        design_ref="DESIGN.md §4 C08",
+        note="Trusted: numpy eigvalsh. primme absent (direct + davidson only). Dense dimension <= 512.",
+        technique="property-based testing (Hypothesis) against an exact-diagonalisation oracle (variational bound, interlacing)",
+    ),
     "C19": dict(
         category="exploration",
         text="Complete enumeration of the finite space (10 tableaux x rows x 17 rooted trees of order <=5, row sums, "
